@@ -76,6 +76,16 @@ theorem udp_fmt3_decode_layout (t : State) (b0 b1 b2 b3 b4 b5 b6 b7 : UInt8) (re
          offset_pkt_start := some (b2.toNat + 256 * b3.toNat), payload := rest }, .ok ()) :=
   unpack_bytes_fmt3 t b0 b1 b2 b3 b4 b5 b6 b7 rest h1 h2
 
+/-- the byte-level hypotheses of the three decode-side layouts are inhabited (first bytes 0x21, 0x02 / 0x52, 0x33) -/
+example : ((0x21 : UInt8).toNat % 16 = 1 ∧ (0x21 : UInt8).toNat / 16 ≠ 1) ∧
+    ((0x52 : UInt8).toNat % 16 ≠ 1 ∧ (0x52 : UInt8).toNat % 16 ≠ 3) ∧
+    ((0x33 : UInt8).toNat % 16 = 3 ∧ (0x33 : UInt8).toNat / 16 ≤ 4) := by decide
+/-- format 3 from the wire: `33 00 0C 00 | FF FF 5F 5A` is source-id length 3, offset 12, source id 0x5A5,
+    sequence 0xFFFFF -/
+example : (unpack fresh [0x33, 0, 0x0C, 0, 0xFF, 0xFF, 0x5F, 0x5A, 9, 9]).1.sourceid = 0x5A5 ∧
+    (unpack fresh [0x33, 0, 0x0C, 0, 0xFF, 0xFF, 0x5F, 0x5A, 9, 9]).1.sequence = 0xFFFFF ∧
+    (unpack fresh [0x33, 0, 0x0C, 0, 0xFF, 0xFF, 0x5F, 0x5A, 9, 9]).1.payload = [9, 9] := by decide
+
 /-- format 1 round trip: decoding the encoding (into an object in ANY prior state `t`) gives the same
     type, sequence and payload, every other field at its default, and re-encoding reproduces the bytes -/
 theorem udp_fmt1_roundtrip (s t : State) (h : WF1 s) :
@@ -97,6 +107,36 @@ theorem udp_fmt3_roundtrip (s t : State) (o : Nat) (h : WF3 s o) :
   rw [pack_fmt3 (dec3 s.sourceid_len s.sourceid s.sequence o s.payload) o ⟨rfl, hl, hsid, hseq, rfl, ho2⟩]
   rfl
 
+/-- "the same field values", spelled out for format 3 (the object `dec3` of `udp_fmt3_roundtrip`): source-id
+    length, source id, sequence, offset to packet start and payload come back.  Format 3 has NO message-type
+    field on the wire: the decoder stores the high nibble of byte 0 — the source-id length — in `type`, so the
+    encoder-side `type` is not preserved (nor used by `pack`); every field the format does not carry is at its
+    default. -/
+theorem udp_fmt3_roundtrip_fields (s t : State) (o : Nat) (h : WF3 s o) :
+    ∃ b, (pack s).2 = .ok b ∧ (unpack t b).2 = .ok () ∧
+      (unpack t b).1.version = 3 ∧ (unpack t b).1.sourceid_len = s.sourceid_len ∧
+      (unpack t b).1.sourceid = s.sourceid ∧ (unpack t b).1.sequence = s.sequence ∧
+      (unpack t b).1.offset_pkt_start = some o ∧ (unpack t b).1.payload = s.payload ∧
+      (unpack t b).1.type = s.sourceid_len ∧
+      (unpack t b).1.channelID = 0 ∧ (unpack t b).1.channelsequence = 0 ∧ (unpack t b).1.segmentoffset = 0 ∧
+      (unpack t b).1.packetsize = none := by
+  obtain ⟨b, hp, hu, _⟩ := udp_fmt3_roundtrip s t o h
+  exact ⟨b, hp, by rw [hu], by rw [hu]; rfl, by rw [hu]; rfl, by rw [hu]; rfl, by rw [hu]; rfl, by rw [hu]; rfl,
+    by rw [hu]; rfl, by rw [hu]; rfl, by rw [hu]; rfl, by rw [hu]; rfl, by rw [hu]; rfl, by rw [hu]; rfl⟩
+
+/-- … and for format 1 (object `dec1`): type, sequence, payload -/
+theorem udp_fmt1_roundtrip_fields (s t : State) (h : WF1 s) :
+    ∃ b, (pack s).2 = .ok b ∧ (unpack t b).2 = .ok () ∧ (unpack t b).1.version = 1 ∧
+      (unpack t b).1.type = s.type ∧ (unpack t b).1.sequence = s.sequence ∧ (unpack t b).1.payload = s.payload := by
+  obtain ⟨b, hp, hu, _⟩ := udp_fmt1_roundtrip s t h
+  exact ⟨b, hp, by rw [hu], by rw [hu]; rfl, by rw [hu]; rfl, by rw [hu]; rfl, by rw [hu]; rfl⟩
+
+/-- a format-3 object whose `type` differs from its source-id length: well-formed, and `type` comes back as 3 -/
+example :
+    let s0 : State := { fresh with version := 3, type := 0, sourceid_len := 3, sourceid := 0x5A5, sequence := 0xFFFFF, offset_pkt_start := some 12 }
+    WF3 s0 12 ∧ (unpack fresh (match (pack s0).2 with | .ok b => b | .error _ => [])).1.type = 3 := by
+  refine ⟨by simp [WF3], by decide⟩
+
 /-
   Full statement (FALSE, known finding K1):
     theorem udp_fmt2_roundtrip (s t) (h : WF2 s) : ∃ b, (pack s).2 = .ok b ∧ unpack t b = (dec2 …, .ok ()) ∧ …
@@ -116,6 +156,23 @@ theorem udp_fmt2_roundtrip_partial (s t : State) (h : WF2 s)
 example : WF2 { fresh with version := 2, sequence := 0x020000 } ∧
     (0x020000 / 65536 % 16 ≠ 1 ∧ 0x020000 / 65536 % 16 ≠ 3) := by
   simp [WF2, fresh, TYPE_FULL]
+/-- … and a richer joint witness (sequence with all three bytes non-zero, payload, offset, channel) -/
+example : WF2 { fresh with version := 2, type := 3, sequence := 0xA2CDEF, segmentoffset := 0x123456, channelID := 7,
+                           payload := [1, 2, 3, 4, 5] } ∧
+    (0xA2CDEF / 65536 % 16 ≠ 1 ∧ 0xA2CDEF / 65536 % 16 ≠ 3) := by
+  simp [WF2]
+
+/-- the fields format 2 carries come back (object `dec2`); `packetsize` is the payload length in 32-bit words,
+    rounded DOWN (`//`): a payload that is not a whole number of words is under-declared by `pack` -/
+theorem udp_fmt2_roundtrip_fields_partial (s t : State) (h : WF2 s)
+    (hk : s.sequence / 65536 % 16 ≠ 1 ∧ s.sequence / 65536 % 16 ≠ 3) :
+    ∃ b, (pack s).2 = .ok b ∧ (unpack t b).2 = .ok () ∧ (unpack t b).1.version = 2 ∧
+      (unpack t b).1.type = s.type ∧ (unpack t b).1.sequence = s.sequence ∧
+      (unpack t b).1.segmentoffset = s.segmentoffset ∧ (unpack t b).1.channelID = s.channelID ∧
+      (unpack t b).1.payload = s.payload ∧ (unpack t b).1.packetsize = some (s.payload.length / 4) := by
+  obtain ⟨b, hp, hu, _⟩ := udp_fmt2_roundtrip_partial s t h hk
+  exact ⟨b, hp, by rw [hu], by rw [hu]; rfl, by rw [hu]; rfl, by rw [hu]; rfl, by rw [hu]; rfl, by rw [hu]; rfl,
+    by rw [hu]; rfl, by rw [hu]; rfl⟩
 
 /-- K1, negation witness: the well-formed format-2 header with sequence 0x010000 is decoded as FORMAT 1
     with sequence 131072 -/
